@@ -146,7 +146,12 @@ class MetaType(type):
         if count == EOF:
             result = []
             while not _is_eof(stream):
-                result.append(cls._read(stream, context))
+                position = stream.tell()
+                value = cls._read(stream, context)
+                if stream.tell() == position:
+                    # An element without any bytes never gets to the end of the stream
+                    break
+                result.append(value)
             return result
 
         return [cls._read(stream, context) for _ in range(count)]
